@@ -56,8 +56,9 @@ FullCases == [strict : BOOLEAN, kind : {"geth-light"}, local : [Slots -> Locals]
 
 -----------------------------------------------------------------------------
 (* C20 *)
-InitLife(interval) == [running |-> FALSE, t0 |-> 0, updates |-> 0, connects |-> 0, failat |-> 0, since |-> 0,
-                       waitq |-> <<>>, now |-> 0, interval |-> interval, loops |-> 0,
+\* slow: seconds the pool takes to answer a keep-alive (the schedule of the loop does not depend on it)
+InitLife(interval, slow) == [running |-> FALSE, t0 |-> 0, updates |-> 0, connects |-> 0, failat |-> 0, since |-> 0,
+                       waitq |-> <<>>, now |-> 0, interval |-> interval, loops |-> 0, slow |-> slow,
                        early |-> 0, got |-> <<>>]      \* callers already blocked in Wait; what they have been handed
 
 \* the loop ended with result x: a caller already waiting gets it at once, otherwise it is kept for the next Wait
@@ -68,9 +69,9 @@ StartF(L, connectfail, failat) ==
     IF L.running THEN [st |-> L, r |-> "already"]
     ELSE LET L1 == [L EXCEPT !.connects = L.connects + 1, !.failat = failat, !.since = 0] IN
          IF connectfail THEN [st |-> L1, r |-> "poolerr"]
-         ELSE LET L2 == [L1 EXCEPT !.updates = L1.updates + 1, !.since = 1] IN       \* the first keep-alive
+         ELSE LET L2 == [L1 EXCEPT !.updates = L1.updates + 1, !.since = 1, !.now = L.now + L.slow] IN   \* the first keep-alive (answered after `slow`)
               IF failat = 1 THEN [st |-> L2, r |-> "poolerr"]                        \* nothing is left running
-              ELSE [st |-> [L2 EXCEPT !.running = TRUE, !.t0 = L.now, !.loops = L.loops + 1], r |-> "ok"]
+              ELSE [st |-> [L2 EXCEPT !.running = TRUE, !.t0 = L2.now, !.loops = L.loops + 1], r |-> "ok"]
 
 \* keep-alives the running loop sends while d seconds pass: one per interval since the loop started
 RECURSIVE Ticks(_, _)
@@ -87,5 +88,6 @@ SleepF(L, d) == [Ticks(L, L.now + d) EXCEPT !.now = L.now + d]
 
 StopF(L) == Ended(L, "nil")
 
-ForceF(L) == [L EXCEPT !.updates = L.updates + 1, !.since = L.since + 1]
+ForceF(L) == LET L1 == [L EXCEPT !.updates = L.updates + 1, !.since = L.since + 1] IN
+             [Ticks(L1, L1.now + L1.slow) EXCEPT !.now = L1.now + L1.slow]     \* (the loop keeps ticking while the forced one is answered)
 =============================================================================
